@@ -511,7 +511,9 @@ class QueryResponsePayload(base.ResponsePayload):
 
     @property
     def rng_parameters(self):
-        return self._rng_parameters
+        if self._rng_parameters:
+            return self._rng_parameters
+        return None
 
     @rng_parameters.setter
     def rng_parameters(self, value):
@@ -536,7 +538,9 @@ class QueryResponsePayload(base.ResponsePayload):
 
     @property
     def profile_information(self):
-        return self._profile_information
+        if self._profile_information:
+            return self._profile_information
+        return None
 
     @profile_information.setter
     def profile_information(self, value):
@@ -561,7 +565,9 @@ class QueryResponsePayload(base.ResponsePayload):
 
     @property
     def validation_information(self):
-        return self._validation_information
+        if self._validation_information:
+            return self._validation_information
+        return None
 
     @validation_information.setter
     def validation_information(self, value):
@@ -586,7 +592,9 @@ class QueryResponsePayload(base.ResponsePayload):
 
     @property
     def capability_information(self):
-        return self._capability_information
+        if self._capability_information:
+            return self._capability_information
+        return None
 
     @capability_information.setter
     def capability_information(self, value):
